@@ -44,7 +44,7 @@ def gen_function(modname, qualname, reg, theory=None):
     except RecursionError:
         err = 'path explosion (recursion limit)'
     return dict(name=cname, obls=ex.obls, decls=ex.decl_lines(), error=err, dropped=ex.dropped,
-                hash=core.fn_hash(fn), paths=ex.paths)
+                hash=core.fn_hash(fn) + '.' + core.class_context(mod), paths=ex.paths)
 
 
 def discharge(gens, prelude_text, timeout=10, jobs=None):
